@@ -452,6 +452,15 @@ func main() {
 		if allValid {
 			run.Tally("input:all-segments-pass-Validate")
 		}
+		wf := allValid
+		for li, l := range c.lists() {
+			for _, x := range *l {
+				wf = wf && segWF(x, li == 1)
+			}
+		}
+		if wf {
+			run.Tally("input:well-formed(C29 oracle applies)")
+		}
 
 		var paths []combinator.Path
 		panicked, msg := vgen.Recover(func() {
@@ -528,6 +537,36 @@ func main() {
 		run.Add(kind, term, term, nontrivial, desc, tags...)
 	}
 	run.Finish()
+}
+
+// segWF mirrors CombSpec.wf_segment / wf_core minus seg.Validate (tally only).
+func segWF(s *seg.PathSegment, core bool) bool {
+	n := len(s.ASEntries)
+	if n == 0 || (core && n < 2) {
+		return false
+	}
+	seen := map[addr.IA]bool{}
+	for i, a := range s.ASEntries {
+		if a.Local == 0 || seen[a.Local] {
+			return false
+		}
+		seen[a.Local] = true
+		if i > 0 && a.HopEntry.HopField.ConsIngress == 0 {
+			return false
+		}
+		if i < n-1 && a.HopEntry.HopField.ConsEgress == 0 {
+			return false
+		}
+		keys := map[[3]uint64]bool{}
+		for _, p := range a.PeerEntries {
+			k := [3]uint64{uint64(p.HopField.ConsIngress), uint64(p.Peer), uint64(p.PeerInterface)}
+			if keys[k] || p.HopField.ConsIngress == 0 {
+				return false
+			}
+			keys[k] = true
+		}
+	}
+	return true
 }
 
 func segStrings(l []*seg.PathSegment) []string {
